@@ -376,6 +376,195 @@ theorem walk_func_frames_follow_c11 (arch : Walk.Arch) (os : Walk.Os) (w : Walk.
   rw [hg] at this
   exact ⟨i, m, sf, csf, fr, hmod, hm, hsf, hb, hfr, this.symm⟩
 
+/-! ### … with STACK WIN records: the frames of `walk (mkEnvW …)` -/
+
+/-- C11's STACK WIN table builds for ANY records with `u32` sizes (C08 `win_repair_no_panic`) -/
+theorem winTable_ok_any (recs : List Rec) (h : ∀ x ∈ recs, x.size < 2 ^ 32) :
+    ∃ t, Symbolize.winTable recs = .ok t := by
+  obtain ⟨v, hv⟩ := win_repair_no_panic recs (by
+    intro x hx
+    have := h x hx
+    have e : U32MAX = 2 ^ 32 - 1 := by decide
+    omega)
+  have hinv : WInv (fun _ => True) v :=
+    insertWinAll_inv recs (fun x hx => ⟨h x hx, trivial⟩) [] v (fun p hp => by cases hp) hv
+  unfold Symbolize.winTable
+  rw [hv]
+  refine ⟨_, safeP_ok _ ?_⟩
+  intro e he
+  obtain ⟨p, hp, rfl⟩ := List.mem_map.mp he
+  have := mkRange_wf (hinv p hp).1
+  exact ⟨this.1, this.2.1⟩
+
+/-- C11 answers on the canonical related record list WITH the STACK WIN records -/
+theorem c11_answersW (sf : Walk.SymFile) (wins : List Win.Rec) (hsz : ∀ x ∈ wins, x.size < 2 ^ 32)
+    (base instr : Nat) (hi : instr ≤ U64MAX) :
+    ∃ csf fr, Symbolize.build (recsOfW sf wins) = .ok csf ∧ Symbolize.fillSymbol csf base instr = .ok fr := by
+  have hk : ∀ k, ∀ x ∈ kindOf k wins, x.size < 2 ^ 32 := by
+    intro k x hx
+    simp only [kindOf, List.mem_filterMap] at hx
+    obtain ⟨w, hw, hx⟩ := hx
+    split at hx
+    · cases hx; exact hsz w hw
+    · cases hx
+  obtain ⟨t4, e4⟩ := winTable_ok_any _ (hk isFd)
+  obtain ⟨t0, e0⟩ := winTable_ok_any _ (hk isFpo)
+  obtain ⟨csf, hb⟩ : ∃ csf, Symbolize.build (recsOfW sf wins) = .ok csf := by
+    unfold Symbolize.build
+    simp only [Symbolize.finishAll_ok, safeP_ok _ (Symbolize.funcInput_wf _)]
+    show ∃ csf, (match Symbolize.winTable (kindOf isFd wins) with
+      | .panic s => Outcome.panic s
+      | .ok wfd => match Symbolize.winTable (kindOf isFpo wins) with
+        | .panic s => Outcome.panic s
+        | .ok wfpo => _) = Outcome.ok csf
+    rw [e4, e0]
+    exact ⟨_, rfl⟩
+  obtain ⟨fr, hfr⟩ := Symbolize.fill_no_panic hb base instr hi (by
+    intro f hf
+    have hf' : f ∈ (recsOf sf).funcs := hf
+    simp only [recsOf, List.mem_map] at hf'
+    obtain ⟨w, _, rfl⟩ := hf'
+    show ([] : List Symbolize.Inl).length + 1 < U32MAX
+    decide)
+  exact ⟨csf, fr, hb, hfr⟩
+
+theorem winTables_nil : Walk.winTables [] = Walk.WinTables.empty := by
+  have hnil : Win.buildTable [] = .ok [] := by
+    unfold Win.buildTable
+    simp only [List.map_nil, insertWinAll, List.reverse_nil]
+    rw [safeP_ok [] (by intro e he; cases he)]
+    simp [safeVecP, sortEntries, pass, keep]
+  have e4 : wFd [] = [] := rfl
+  have e0 : wFpo [] = [] := rfl
+  rw [winTables_eq, e4, e0, hnil]
+  rfl
+
+/-- the STACK WIN records of module `i` (none when the list is shorter) -/
+def winsAt (wins : List (List Win.Rec)) (i : Nat) : List Win.Rec := (wins[i]?).getD []
+
+/-- `fill_source_line_info` of `mkEnvW`, spelled out: the module is `module_at_address`'s, and with
+    a symbol file the function is `fillSymbolW` over the file's own tables -/
+theorem symbOfW_spec (w : Walk.World) (wins : List (List Win.Rec)) (instr : Nat) :
+    let r := Walk.symbOfW w (Walk.modTable w.mods) (w.syms.map fun s => match s with
+        | some sf => Walk.funcTable sf
+        | none => []) (wins.map Walk.winTables) instr
+    ∀ i, r.1 = some i →
+      (∀ m sf, w.mods[i]? = some m → w.syms[i]? = some (some sf) →
+        r.2 = Walk.fillSymbolW sf (Walk.funcTable sf) (Walk.winTables (winsAt wins i)) m.base instr) ∧
+      (∀ g, r.2 = some g → ∃ m sf, w.mods[i]? = some m ∧ w.syms[i]? = some (some sf)) := by
+  intro r i hi
+  have hr : r = Walk.symbOfW w (Walk.modTable w.mods) (w.syms.map fun s => match s with
+        | some sf => Walk.funcTable sf
+        | none => []) (wins.map Walk.winTables) instr := rfl
+  unfold Walk.symbOfW at hr
+  cases hma : Walk.moduleAt (Walk.modTable w.mods) instr with
+  | none => rw [hma] at hr; rw [hr] at hi; cases hi
+  | some j =>
+    rw [hma] at hr
+    simp only at hr
+    have hwt : ((wins.map Walk.winTables)[j]?).getD Walk.WinTables.empty =
+        Walk.winTables (winsAt wins j) := by
+      unfold winsAt
+      rw [List.getElem?_map]
+      cases wins[j]? with
+      | none => exact winTables_nil.symm
+      | some ws => rfl
+    rw [hwt] at hr
+    have hj : j = i := by
+      rw [hr] at hi
+      split at hi <;> (simp only [Option.some.injEq] at hi; exact hi)
+    subst hj
+    constructor
+    · intro m sf hm hsf
+      rw [hr]
+      simp only [hm, hsf, Option.join_some, List.getElem?_map, Option.map_some]
+    · intro g hg
+      rw [hr] at hg
+      split at hg
+      · rename_i m sf ft hm hsf hft
+        refine ⟨m, sf, hm, ?_⟩
+        cases hq : w.syms[j]? with
+        | none => rw [hq] at hsf; cases hsf
+        | some o => rw [hq] at hsf; simp only [Option.join_some] at hsf; rw [hsf]
+      · cases hg
+
+/-- **`walk_frames_follow_c11W`** — the same for walks over symbol files WITH STACK WIN records
+    (`mkEnvW`: x86 frames found by STACK WIN, the parameter size of a FUNC taken from the frame-data /
+    FPO record at the address): for every architecture, OS, module list with symbol records and per
+    module STACK WIN lines, stack memory and context, every frame of `walk (mkEnvW …)` whose module
+    `m` has a symbol file `sf` carries EXACTLY `fr.fn` of C11's `fill_symbol` — name, base, parameter
+    size; none iff none — for every C11 record list describing `sf`'s FUNC / PUBLIC records and the
+    module's STACK WIN records (`u32` sizes, at most `2^64` records). Together with
+    `walk_frames_follow_c11` this covers both environments C14's `stacks_are_walks` uses. -/
+theorem walk_frames_follow_c11W (arch : Walk.Arch) (os : Walk.Os) (w : Walk.World)
+    (wins : List (List Win.Rec)) (mem0 : Walk.Mem) (mem : Option Walk.Mem) (ctx : Walk.Ctx) :
+    ∀ f ∈ Walk.walk (Walk.mkEnvW arch os w wins mem0) mem ctx,
+      ∀ i m sf, f.module = some i → w.mods[i]? = some m → w.syms[i]? = some (some sf) →
+        ∀ (r : Symbolize.Recs) (csf : Symbolize.SymFile) (fr : Symbolize.Frame),
+          FileRel sf r → WinRel (winsAt wins i) r →
+          (∀ x ∈ winsAt wins i, x.size < 2 ^ 32) → (winsAt wins i).length ≤ 2 ^ 64 →
+          Symbolize.build r = .ok csf →
+          Symbolize.fillSymbol csf m.base f.instruction = .ok fr →
+          f.func.map projW = fr.fn := by
+  intro f hf i m sf hmod hm hsf r csf fr hrel hwin hsz hlen hb hfr
+  obtain ⟨h1, h2⟩ := Walk.walk_symbolised _ _ _ f hf
+  have e : (Walk.mkEnvW arch os w wins mem0).symb = Walk.symbOfW w (Walk.modTable w.mods)
+      (w.syms.map fun s => match s with
+        | some sf => Walk.funcTable sf
+        | none => []) (wins.map Walk.winTables) := rfl
+  rw [e] at h1 h2
+  rw [h1] at hmod
+  obtain ⟨s1, _⟩ := symbOfW_spec w wins f.instruction i hmod
+  rw [hmod, s1 m sf hm hsf] at h2
+  simp only [Option.isSome_some, if_true] at h2
+  rw [h2]
+  exact walk_fillW_eq_c11 hrel hwin hsz hlen hb hfr
+
+/-- starting from a frame of `walk (mkEnvW …)` that carries a function: module, symbol file, built
+    C11 file (with the module's STACK WIN records) and C11's answer exist, and the frame carries
+    exactly that answer -/
+theorem walk_func_frames_follow_c11W (arch : Walk.Arch) (os : Walk.Os) (w : Walk.World)
+    (wins : List (List Win.Rec)) (mem0 : Walk.Mem) (mem : Option Walk.Mem) (ctx : Walk.Ctx)
+    (hsz : ∀ ws ∈ wins, ∀ x ∈ ws, x.size < 2 ^ 32) (hlen : ∀ ws ∈ wins, ws.length ≤ 2 ^ 64) :
+    ∀ f ∈ Walk.walk (Walk.mkEnvW arch os w wins mem0) mem ctx, ∀ g, f.func = some g →
+      f.instruction ≤ U64MAX →
+      ∃ i m sf csf fr, f.module = some i ∧ w.mods[i]? = some m ∧ w.syms[i]? = some (some sf) ∧
+        Symbolize.build (recsOfW sf (winsAt wins i)) = .ok csf ∧
+        Symbolize.fillSymbol csf m.base f.instruction = .ok fr ∧
+        fr.fn = some (nm g.name, g.base, g.psize) := by
+  intro f hf g hg hi
+  obtain ⟨h1, h2⟩ := Walk.walk_symbolised _ _ _ f hf
+  have e : (Walk.mkEnvW arch os w wins mem0).symb = Walk.symbOfW w (Walk.modTable w.mods)
+      (w.syms.map fun s => match s with
+        | some sf => Walk.funcTable sf
+        | none => []) (wins.map Walk.winTables) := rfl
+  rw [e] at h1 h2
+  rw [hg] at h2
+  have hsz' : ∀ i, ∀ x ∈ winsAt wins i, x.size < 2 ^ 32 := by
+    intro i x hx
+    unfold winsAt at hx
+    cases hq : wins[i]? with
+    | none => rw [hq] at hx; cases hx
+    | some ws => rw [hq] at hx; exact hsz ws (List.mem_of_getElem? hq) x hx
+  have hlen' : ∀ i, (winsAt wins i).length ≤ 2 ^ 64 := by
+    intro i
+    unfold winsAt
+    cases hq : wins[i]? with
+    | none => simp
+    | some ws => exact hlen ws (List.mem_of_getElem? hq)
+  split at h2
+  · rename_i hsome
+    obtain ⟨i, hi'⟩ := Option.isSome_iff_exists.mp hsome
+    obtain ⟨_, s2⟩ := symbOfW_spec w wins f.instruction i hi'
+    obtain ⟨m, sf, hm, hsf⟩ := s2 g h2.symm
+    have hmod : f.module = some i := by rw [h1]; exact hi'
+    obtain ⟨csf, fr, hb, hfr⟩ := c11_answersW sf (winsAt wins i) (hsz' i) m.base f.instruction hi
+    have := walk_frames_follow_c11W arch os w wins mem0 mem ctx f hf i m sf hmod hm hsf _ csf fr
+      (recsOfW_rel sf _).1 (recsOfW_rel sf _).2 (hsz' i) (hlen' i) hb hfr
+    rw [hg] at this
+    exact ⟨i, m, sf, csf, fr, hmod, hm, hsf, hb, hfr, this.symm⟩
+  · cases h2
+
 /-! ## non-vacuity: a concrete file, both models computed -/
 
 /-- `FUNC 10 20 4 f`, `PUBLIC 8 0 p`, `PUBLIC 40 8 q` (hex) -/
